@@ -4,6 +4,7 @@ package main
 
 import (
 	"fmt"
+	"sort"
 	"strings"
 )
 
@@ -147,10 +148,17 @@ func compoundScenarios(c *CheckRun) []*Scenario {
 			case m&ckReiter != 0:
 				bb.extra = []int{[]int{0, 1, 3, 4, 5}[i%5], ps, last}
 			case m&ckPure != 0:
-				bb.extra = []int{[]int{0, 1, 2, 4, 5, 6, 7}[i%7], ps, last}
+				w := []int{0, 1, 2, 4, 5, 6, 7}[i%7]
+				if w == 7 {
+					ps = b.ops[0][1] // "Insert of a present key" needs a key the history stored (the probe spec names a new one)
+				}
+				bb.extra = []int{w, ps, last}
 			}
 			s := bb.scn()
 			s.Harness = "hCompound"
+			if m&ckPure != 0 {
+				s.MayBeVacuous = true // e.g. "Insert of a present key" when the template deleted that key again
+			}
 			out = append(out, s)
 		}
 	}
@@ -537,6 +545,41 @@ func retainScenarios(c *CheckRun) []*Scenario {
 			s := bb.scn()
 			s.MayBeVacuous = true // e.g. a history whose deletes leave no key of that shape
 			out = append(out, s)
+		}
+	}
+	// a retired node goes back to the pool and is reused by a sibling fan of the same tree; the keys its unoccupied
+	// slots could still point at are then deleted: 17 (49) siblings below "a" (the node16 (node48) is retired on the growth),
+	// 5 (17) siblings below "ab" (their node grows and takes the retired object under the LIFO pool model), then
+	// 10 (30) of the first group are deleted
+	for _, sz := range [][3]int{{17, 5, 10}, {49, 17, 30}} {
+		if sz[0] > 17 && c.Tier == "quick" {
+			continue
+		}
+		var ops [][2]int
+		var as []int
+		for _, b := range fanBytes(sz[0]+2, c.Seed, 2) {
+			if b != 0 && b != 'b' && len(as) < sz[0] {
+				as = append(as, b)
+			}
+		}
+		for _, b := range as {
+			ops = append(ops, [2]int{opInsertC, cKeyStem(1, b)})
+		}
+		n := 0
+		for _, b := range fanBytes(sz[1]+1, c.Seed, 3) {
+			if b != 0 && n < sz[1] {
+				ops = append(ops, [2]int{opInsertC, cKeyStem(2, b)})
+				n++
+			}
+		}
+		sorted := append([]int(nil), as[:sz[0]-1]...)
+		sort.Ints(sorted)
+		for i := 0; i < sz[2]; i++ {
+			ops = append(ops, [2]int{opDeleteC, cKeyStem(1, sorted[len(sorted)-1-i])})
+		}
+		for _, cy := range []int{10, 2} {
+			out = append(out, histB{kind: kindAlphaB, mask: ckRetain, ops: ops, extra: []int{cy, aSpec(1, 1)}, big: true, stem: 1,
+				label: fmt.Sprintf("retired node reused by a sibling fan (%d+%d keys, %d deleted)", sz[0], sz[1], sz[2])}.scn())
 		}
 	}
 	// single-method query histories (a mixed cycle can hide a leak that another method resets)
